@@ -11,7 +11,10 @@
 (*   Directive.effects + RuntimeState.update -> Apply                       *)
 (*                                                                         *)
 (* A comment is  '# ' PREFIX OPTIONS  placed on its own line, behind a     *)
-(* statement, on a continuation line of a statement, or inside a string     *)
+(* statement, on a continuation line of a statement - also one that stands *)
+(* behind an EMPTY source line (a bare "..." line) of the same statement    *)
+(* (placement "afterblank"; the comment scan must not stop at the empty     *)
+(* line) -, or inside a string                                              *)
 (* literal.  OPTIONS is a sequence of ATOMS separated by SEPARATORS:        *)
 (*   atom = [sign, name, args, sp]   sign "+" | "-" | "" ; name as written  *)
 (*          (any case); args: sequence of condition ids (REQUIRES only);    *)
@@ -171,7 +174,7 @@ DeclDirectives(atoms, seps) ==
 (* Recognition of the comment (Directive.extract) *)
 PrefixOk(pfx) == pfx \in {"xdoctest: ", "doctest: ", "xdoc: ", "doc: ", "XDOCTEST: ", "Doctest:", "xdoctest:    "}
 Recognised(pfx, place) == PrefixOk(pfx) /\ place # "instring"
-Inline(place) == place \in {"trailing", "continuation"}
+Inline(place) == place \in {"trailing", "continuation", "afterblank"}
 
 (* Effect on a runtime state [SKIP, ELLIPSIS, REQ] (block directive; the overlay logic is in DocRun.tla) *)
 RECURSIVE ApplyArgs(_, _, _, _)
